@@ -80,6 +80,14 @@ class C03(Prop):
                 break
         kind = "fast" if rng.random() < 0.7 else "custom"
         builds = ["clique"] * T
+        if i % 4 == 3 and kind == "fast":
+            # an unused topology (all-zero column) in front of or between the used ones
+            at = rng.randrange(T + 1) if rng.random() < 0.5 else 0
+            for r in jds:
+                r.insert(at, 0)
+            sizes.insert(at, rng.randint(1, 3))
+            T += 1
+            builds = ["clique"] * T
         if i % 4 == 1:
             # a slot-asymmetric motif from the library's own generators: one 4- or 5-cycle; which stub fills which slot matters
             T, N = 1 if rng.random() < 0.6 else 2, rng.randint(4, 6)
